@@ -330,7 +330,7 @@ class ProcessMessage:
             "report_heartbeats_in_digest": roles.report_heartbeats_in_digest["id"],
             "compute_delta": roles.compute_delta["id"],
             "update_self_heartbeat": roles.update_self_heartbeat["id"],
-            "compute_digest": roles.chitchat_compute_digest["id"],
+            "compute_digest": roles.compute_digest["id"],      # ClusterState level: the Chitchat-level forwarder is inlined, whatever its shape
             "scheduled": roles.scheduled_for_deletion_nodes["id"],
         }
         no_inline = set(self.keep.values()) | ({self.digest_len} if self.digest_len else set())
